@@ -124,6 +124,22 @@ def deep_path_case(draw):
     return {"spec": s, "path": pa, "nan_after": None, "score_shift": None}
 
 
+@st.composite
+def wide_path_case(draw):
+    """paths on data with hundreds of features (more columns than samples, the setting feature selection is meant for)"""
+    cls = draw(st.sampled_from(["SparseLinearMMD", "SparseLinearModel", "SparseLinearMI", "SparseMLPModel"]))
+    s = draw(E.est_spec(classes=[cls], n_max=30, d_max=4, iter_max=3, k_max=3, hidden_max=3, n_min=10, gem_names=["mmd_ova", "mi", "kl_ovo"],
+                        allow_instance=False, kernel_forms=("named",), lr=(0.1, 0.5), xkinds=("normal", "blobs")))
+    s["d"] = s["x"]["d"] = draw(st.sampled_from([257, 300, 384, 260]))
+    s["groups"] = None
+    s.pop("gcont", None)
+    s["alpha"] = draw(st.sampled_from([0.05, 0.2, 0.5]))
+    pa = {"alpha_multiplier": draw(st.sampled_from([1.3, 1.5, 2.0])), "min_features": draw(st.sampled_from([2, 20, 100])),
+          "keep_threshold": draw(st.sampled_from([0.9, 0.8, 0.99])), "restore_best_weights": draw(st.booleans()),
+          "early_stopping_factor": 0.99, "max_patience": draw(st.sampled_from([1, 2]))}
+    return {"spec": s, "path": pa, "nan_after": None, "score_shift": None}
+
+
 def poison(est, limit):
     """From the `limit`-th score-only evaluation made while a penalty is in force, the objective of `est` reports NaN (what
     an overflowing kernel or a user-written GEMINI does); gradients and affinities are untouched."""
@@ -313,6 +329,7 @@ def oracle_defaults(case):
 
 def subs():
     return [Sub("deep_path", deep_path_case(), oracle_path, 1, 6, "fine paths of hundreds of steps x hundreds of epochs (weights shrink through 300 orders of magnitude)", shards=False),
+            Sub("contract_wide", wide_path_case(), oracle_path, 40, 600, "the same contract on 257-384 features"),
             Sub("contract_grouped", grouped_path_case(), oracle_path, 300, 6000, "the same contract with multi-feature groups and long paths"),
             Sub("contract", path_case(), oracle_path, 700, 12000, "termination, histories, best weights, restoration"),
             Sub("defaults", path_case(defaults=True), oracle_defaults, 60, 800, "out-of-range arguments == documented defaults")]
